@@ -326,6 +326,16 @@ Definition hash_good (D : list (list ftok)) : Prop :=
   (forall x y, In x D -> In y D -> H x = H y -> x = y).
 End Hash.
 
+(* token lists as the two tasks build them: an encoded value that is hashed as plain bytes never starts with the tag of
+   a signature value (5, 6), a nested signature is one of the two signature kinds *)
+Fixpoint tok_ok (t : tok) : Prop :=
+  match t with
+  | TBytes b => hd 0 b <> 5 /\ hd 0 b <> 6
+  | TSub k l => (k = VDirectoryTreeSignature \/ k = VDirectoryTreeStructureSignature) /\
+                (fix all (l : list tok) : Prop := match l with [] => True | t :: l' => tok_ok t /\ all l' end) l
+  | _ => True
+  end.
+
 (* ------------------------------------------------------------------ the signatures of a tree on disk *)
 
 Section Match2.
@@ -361,11 +371,12 @@ Inductive shape :=
 | ShMissing
 | ShNode (ty : N) (cs : list (bytes * shape)).
 
-Fixpoint shape_of (v : vtree) : shape :=
+Fixpoint shape_gen (mk : N -> N) (v : vtree) : shape :=
   match v with
   | VMissing => ShMissing
-  | VNode i cs => ShNode (type_bits (fi_mode i)) (map (fun nc : bytes * vtree => (fst nc, shape_of (snd nc))) cs)
+  | VNode i cs => ShNode (mk (fi_mode i)) (map (fun nc : bytes * vtree => (fst nc, shape_gen mk (snd nc))) cs)
   end.
+Definition shape_of : vtree -> shape := shape_gen type_bits.
 
 Definition name_ok (n : bytes) : Prop := n <> [] /\ nul_free n = true /\ forallb (fun b => negb (N.eqb b 47)) n = true.
 
@@ -406,6 +417,14 @@ Fixpoint canon (v : vtree) : vtree :=
   | VMissing => VMissing
   | VNode i cs => VNode i (sort_by (map (fun nc : bytes * vtree => (fst nc, canon (snd nc))) cs))
   end.
+
+(* the same entries with the same file types; everything else (size, times, inode, device, permission bits) is free *)
+Inductive same_structure : vtree -> vtree -> Prop :=
+| same_Missing : same_structure VMissing VMissing
+| same_Node i j cs ds :
+    type_bits (fi_mode i) = type_bits (fi_mode j) ->
+    Forall2 (fun a b : bytes * vtree => fst a = fst b /\ same_structure (snd a) (snd b)) cs ds ->
+    same_structure (VNode i cs) (VNode j ds).
 
 (* a single edit at any depth; each constructor changes the observed tree *)
 Inductive edit1 : vtree -> vtree -> Prop :=
